@@ -164,7 +164,9 @@ FULL_FAULTS = {
     "inf-evaluation-point": ("S3", "dim"),
     "neginf-evaluation-point": ("S3", "dim"),
     "nan-evaluation-point-cdf": ("S3", "dim"),
-    "3d-model-into-2d-contour": ("S4", "contour3"),
+    "3d-model-into-direct-sampling-contour": ("S4", "contour3"),
+    "3d-model-into-and-contour": ("S4", "contour3"),
+    "3d-model-into-or-contour": ("S4", "contour3"),
     "non-model-into-iform": ("S4", "global"),
     "unknown-slicer-option": ("S0", "conddim-slicer"),
     "unknown-reference-keyword": ("S2", "conddim-slicer"),
@@ -274,9 +276,9 @@ def generate(prop, seed, tier):
             continue
         if pa is not None and pa == pb and c["kind"] == "desc":
             continue  # two description faults on the same dimension may cancel each other
-        if {a, b} & {"3d-model-into-2d-contour", "non-model-into-iform"} and any(x.startswith("hdc") for x in (a, b)):
+        if (a.startswith("3d-model-into") or b.startswith("3d-model-into") or "non-model-into-iform" in (a, b)) and any(x.startswith("hdc") for x in (a, b)):
             continue  # different contour stages: only one contour is built per pipeline
-        if a == "3d-model-into-2d-contour" and b == "non-model-into-iform" or b == "3d-model-into-2d-contour" and a == "non-model-into-iform":
+        if (a.startswith("3d-model-into") and b == "non-model-into-iform") or (b.startswith("3d-model-into") and a == "non-model-into-iform"):
             continue
         if a.startswith("hdc") and b.startswith("hdc") and a != b and {a, b} & {"hdc-limits-wrong-length"} and {a, b} & {"hdc-limit-tuple-wrong-length", "hdc-limit-scalar-entry"}:
             continue
@@ -490,10 +492,11 @@ def run_pipeline(pipe, faults, run=None):
         hdc = [c for (c, p) in fl if c.startswith("hdc")]
         if has("non-model-into-iform"):
             IFORMContour(descs, 0.05)
-        elif has("3d-model-into-2d-contour"):
+        elif any(c.startswith("3d-model-into") for (c, p) in fl):
             sample = data[:200, :]
-            k = len(pipe["dims"][0]["family"]) % 3
-            [DirectSamplingContour, AndContour, OrContour][k](model, 0.1, sample=sample)
+            for cname, cls_ in (("3d-model-into-direct-sampling-contour", DirectSamplingContour), ("3d-model-into-and-contour", AndContour), ("3d-model-into-or-contour", OrContour)):
+                if has(cname):
+                    cls_(model, 0.1, sample=sample)
         elif hdc:
             limits = [(0.0, 8.0 + i) for i in range(n)]
             deltas = [0.5] * n
